@@ -324,7 +324,7 @@ Qed.
 (* the same request, completing within the handler's own turn (false) or in a later one (true) *)
 Definition set_later (b : bool) (o : op) : op :=
   match o with
-  | OSend c ty n1 n2 tag pads rpad mode targets _ kick => OSend c ty n1 n2 tag pads rpad mode targets b kick
+  | OSend c ty n1 n2 tag pads rpad mode targets _ kick fill sess => OSend c ty n1 n2 tag pads rpad mode targets b kick fill sess
   | _ => o
   end.
 
@@ -362,4 +362,82 @@ Proof.
   induction targets as [|t ts IHt]; simpl; [reflexivity|].
   destruct (Z.eqb_spec t c); [subst; exfalso; apply N; left; reflexivity|].
   apply IHt. intro H. apply N. right. exact H.
+Qed.
+
+(* ---------- rooms of any size, and session traffic ---------- *)
+
+(* ids nobody ever had, anywhere in the id list of a multi-target push, are skipped: what is
+   served is the live ones among the listed connections, in listing order *)
+Lemma served_app keep a b : served keep (a ++ b) = served keep a ++ served keep b.
+Proof. unfold served. apply flat_map_app. Qed.
+
+Lemma served_none keep (l : list Z) : served keep (map (fun _ => None) l) = [].
+Proof. induction l as [|x r IH]; simpl; [reflexivity | exact IH]. Qed.
+
+Lemma served_some keep targets : served keep (map Some targets) = filter keep targets.
+Proof.
+  induction targets as [|t r IH]; simpl; [reflexivity|].
+  destruct (keep t); simpl; rewrite IH; reflexivity.
+Qed.
+
+Lemma served_id_list keep fill targets : served keep (id_list fill targets) = filter keep targets.
+Proof. unfold id_list. rewrite served_app, served_none, served_some. reflexivity. Qed.
+
+(* the same request naming k never-added ids before its targets *)
+Definition set_fill (k : Z) (o : op) : op :=
+  match o with
+  | OSend c ty n1 n2 tag pads rpad mode targets later kick _ sess => OSend c ty n1 n2 tag pads rpad mode targets later kick k sess
+  | _ => o
+  end.
+
+Lemma fill_irrelevant k ops : forall cs dead,
+  issue_from cs dead (map (set_fill k) ops) = issue_from cs dead ops.
+Proof.
+  induction ops as [|o r IH]; intros cs dead; simpl; [reflexivity|].
+  assert (C : conn_step cs (set_fill k o) = conn_step cs o) by (destruct o; reflexivity).
+  assert (D : dead_step cs dead (set_fill k o) = dead_step cs dead o) by (destruct o; reflexivity).
+  rewrite C, IH. f_equal; [|rewrite D; reflexivity].
+  destruct o as [c0 slow|c0 ms|c0 v| |c0 ty n1 n2 tag pads rpad mode targets later kick fill sess]; try reflexivity.
+  cbn [set_fill]. rewrite !served_id_list.
+  change (dead_step cs dead (OSend c0 ty n1 n2 tag pads rpad mode targets later kick k sess))
+    with (dead_step cs dead (OSend c0 ty n1 n2 tag pads rpad mode targets later kick fill sess)).
+  reflexivity.
+Qed.
+
+(* what the multi-target pushes of a request are sent to: the live ones among its targets *)
+Lemma issue_targets keep fill targets i tag pads from count :
+  pushes i tag pads (served keep (id_list fill targets)) from count =
+  pushes i tag pads (filter keep targets) from count.
+Proof. rewrite served_id_list. reflexivity. Qed.
+
+(* the same request whose handler touches its session as [k] says *)
+Definition set_sess (k : Z) (o : op) : op :=
+  match o with
+  | OSend c ty n1 n2 tag pads rpad mode targets later kick fill _ => OSend c ty n1 n2 tag pads rpad mode targets later kick fill k
+  | _ => o
+  end.
+
+Lemma sess_irrelevant k ops : forall cs dead,
+  issue_from cs dead (map (set_sess k) ops) = issue_from cs dead ops.
+Proof.
+  induction ops as [|o r IH]; intros cs dead; simpl; [reflexivity|].
+  assert (C : conn_step cs (set_sess k o) = conn_step cs o) by (destruct o; reflexivity).
+  assert (D : dead_step cs dead (set_sess k o) = dead_step cs dead o) by (destruct o; reflexivity).
+  rewrite C, D, IH. f_equal. destruct o; reflexivity.
+Qed.
+
+(* whatever else travels through the same queues - session synchronisation, pushes to other
+   connections, other issuers' items - : two networks whose issuer i issues the same items to
+   connection c deliver the same sequence of them to c, under any two schedules *)
+Lemma other_traffic_harmless fixed logs logs' sched sched' i c :
+  owned_logs logs -> owned_logs logs' -> covered fixed i ->
+  drained (run_sched fixed (start logs) sched) ->
+  drained (run_sched fixed (start logs') sched') ->
+  proj i c (lookup logs i) = proj i c (lookup logs' i) ->
+  proj i c (lookup (got (run_sched fixed (start logs) sched)) c) =
+  proj i c (lookup (got (run_sched fixed (start logs') sched')) c).
+Proof.
+  intros O O' CV D D' E.
+  rewrite (order_complete fixed logs sched i c O CV D), (order_complete fixed logs' sched' i c O' CV D').
+  exact E.
 Qed.
